@@ -606,7 +606,24 @@ func runC17(c *eng.Ctx) {
 						continue
 					}
 					for _, k := range fields {
-						if eng.DependsOnField(other, k) {
+						// the value compared with nil is the field itself, not something computed from it (e.g. an error built from it)
+						if isErrorType(other.Type()) {
+							continue
+						}
+						isField := false
+						eng.WalkExpr(other, func(x ssa.Value) bool {
+							switch y := x.(type) {
+							case *ssa.UnOp:
+								if fa, ok := y.X.(*ssa.FieldAddr); ok && eng.FieldKeyOfAddr(fa) == k {
+									isField = true
+								}
+								return true
+							case *ssa.Phi, *ssa.ChangeInterface, *ssa.MakeInterface, *ssa.TypeAssert, *ssa.Extract, *ssa.Parameter:
+								return true
+							}
+							return false
+						})
+						if isField {
 							checked[k] = true
 						}
 					}
@@ -622,6 +639,8 @@ func runC17(c *eng.Ctx) {
 	operandsPresent("completeFieldExpr", []string{"sql/stmt.ParenExpr.Expr", "sql/stmt.BinaryExpr.Left", "sql/stmt.BinaryExpr.Right"})
 	// F37: the comparison / logical node of a HAVING clause is completed by completeBoolExpr
 	operandsPresent("completeBoolExpr", []string{"sql/stmt.BinaryExpr.Left", "sql/stmt.BinaryExpr.Right"})
+	// F41: an order-by item whose expression is a duration, `*` or a number has no expression at all
+	operandsPresent("completeSortField", []string{"sql/stmt.OrderByExpr.Expr"})
 
 	// F37: a number the parser can not represent is refused, not replaced (an overflowing literal becomes +Inf, which has no JSON form)
 	c.Rule("ERRFLOW", "sql{a literal that does not convert is a parse error}", func() {
